@@ -589,12 +589,28 @@ def resolve_chain(body, op, depth=0):
 # forward taint
 # ------------------------------------------------------------------------------------------------
 
-def forward(body, start_locals, declassify=None, max_iter=100):
+def forward(body, start_locals, declassify=None, max_iter=100, start_upvars=()):
     """TAINT⁺: locals reachable by data flow from start_locals.  declassify(term) -> True stops propagation
     through that call (its result / &mut args are not tainted by it).  Returns (tainted set, list of (bi, term,
     [tainted arg indices]))."""
     body.defs()
     T = set(start_locals)
+    # captured upvars: operands reading `_1.<idx>` (closure / coroutine environment) start the taint
+    if start_upvars:
+        for bi, si, st in body.stmts():
+            for o in st["rv"]["ops"]:
+                p = op_place(o)
+                if p is not None and p["l"] == 1:
+                    f = [e for e in p["proj"] if isinstance(e, dict) and "f" in e]
+                    if f and f[0]["f"] in start_upvars:
+                        T.add(st["dst"]["l"])
+        for bi, t in body.calls():
+            for a in t["args"]:
+                p = op_place(a)
+                if p is not None and p["l"] == 1:
+                    f = [e for e in p["proj"] if isinstance(e, dict) and "f" in e]
+                    if f and f[0]["f"] in start_upvars:
+                        T.add(("upvar-arg", bi))
     changed = True
     it = 0
     calls = {}
@@ -613,6 +629,8 @@ def forward(body, start_locals, declassify=None, max_iter=100):
                     break
         for bi, t in body.calls():
             idx = [i for i, a in enumerate(t["args"]) if op_place(a) is not None and op_place(a)["l"] in T]
+            if ("upvar-arg", bi) in T and not idx:
+                idx = [i for i, a in enumerate(t["args"]) if op_place(a) is not None and op_place(a)["l"] == 1]
             if not idx:
                 continue
             calls[bi] = (bi, t, idx)
